@@ -295,6 +295,17 @@ class Gen:
         self.targets = rng.sample(TARGETS, 2 if tight else rng.randint(2, 3))
         if tight:
             self.algs = self.algs[:3]
+        # wide catalogues: more than ten rows in the algorithm / target tables,
+        # so that ids 1 and 10..19 (decimal prefixes of one another inside the
+        # prime keys "(run, target, task, alg, sv, value)") coexist in one task
+        self.wide = focus == 'C08' and not small and rng.random() < 0.35
+        if self.wide:
+            self.algs = list(ALGS)
+            self.tasks = self.tasks[:1]
+            self.targets = self.targets[:2]
+            w = list(self.w)
+            w[2], w[9], w[10] = 0.14, 0.08, 0.14     # remove, trace, reset
+            self.w = tuple(w)
 
     def v(self, *key):
         return self.ver.setdefault(key, (1, 0, 0))
@@ -380,6 +391,20 @@ class Gen:
 
     def history(self, n):
         out = []
+        if self.wide:
+            r = self.rng
+            task = self.tasks[0]
+            combos = [(a, v) for a in self.algs for v in VERS]
+            r.shuffle(combos)
+            for alg, ver in combos[:r.randint(12, 16)]:
+                self.ver[('a', task, alg)] = ver
+                sv, vn = r.choice(self.svs), r.choice(self.vals)
+                out.append({'op': 'reg', 'task': task, 'alg': alg, 'aver': list(ver),
+                            'sv': sv, 'sver': list(self.v('s', task, alg, sv)), 'vn': vn,
+                            'vver': list(self.v('v', task, alg, sv, vn))})
+            for i in range(r.randint(0, 12)):
+                out.append({'op': 'add', 'tn': 'X%d' % i})
+            n += len(out)
         while len(out) < n:
             o = self.op()
             if o is not None:
